@@ -1,6 +1,7 @@
 package dkg_proposal_fsm
 
 import (
+	"bytes"
 	"errors"
 	"fmt"
 	"reflect"
@@ -416,7 +417,16 @@ func (m *DKGProposalFSM) actionMasterKeyConfirmationReceived(inEvent fsm.Event, 
 
 	dkgProposalParticipant.UpdatedAt = request.CreatedAt
 	m.payload.DKGProposalPayload.UpdatedAt = request.CreatedAt
-	m.payload.DKGProposalPayload.PubPolyBz = request.PubPolyBz
+
+	// Every participant must announce the same public polynomial: signatures are reconstructed with it.
+	// A differing one aborts the round like a differing master key does.
+	storedPubPolyBz := m.payload.DKGProposalPayload.PubPolyBz
+	if len(storedPubPolyBz) > 0 && len(request.PubPolyBz) > 0 && !bytes.Equal(storedPubPolyBz, request.PubPolyBz) {
+		dkgProposalParticipant.Status = internal.MasterKeyConfirmationError
+		dkgProposalParticipant.Error = requests.NewFSMError(errors.New("public polynomial is mismatched"))
+	} else if len(request.PubPolyBz) > 0 {
+		m.payload.DKGProposalPayload.PubPolyBz = request.PubPolyBz
+	}
 
 	m.payload.DKGQuorumUpdate(request.ParticipantId, dkgProposalParticipant)
 
